@@ -12,7 +12,7 @@ COMPONENTS = {"real": ["mofun.find_pattern_in_structure and everything below it"
 ASSUMPTIONS = ["'well inside the tolerance' is made executable as: a proper rigid motion exists with every atom within atol/(2K), K the "
                "a-priori amplification bound of three-point anchoring (DESIGN 3.2); completeness is demanded only there",
                "count equality is asserted only when the exhaustive enumeration finds no group in the gray zone"]
-NRUNS = {"quick": 1400, "thorough": 40000}
+NRUNS = {"quick": 2200, "thorough": 30000}
 
 
 def generate(rng, tier):
